@@ -664,7 +664,9 @@ class IteratorQueue(IterableQueue[_ValueT]):
           ) from e
         except Exception as e:  # pylint: disable=broad-exception-caught
           exhausted = is_stop_iteration(e)
-          if (exhausted and result) or (not exhausted and self.ignore_error):
+          # Elements dequeued so far are returned first, the exception (or the
+          # StopIteration) is raised again by the next call.
+          if result or (not exhausted and self.ignore_error):
             break
           raise e
     with self._enqueue_lock:
